@@ -25,6 +25,8 @@ def check(ctx: Ctx):
     from ..rules import purity
 
     purity.check_stateless(ctx, ["droplets.image_analysis.get_structure_factor"])
+    spectrum.check_accumulator_dtype(ctx, ("droplets.image_analysis.get_structure_factor", "droplets.image_analysis.get_length_scale"))
+    ctx.expect("DTYPE", 2)
     ctx.expect("STATELESS", 1)
     ctx.expect("DIM", 3)
     ctx.expect("RAWDATA", 4)
